@@ -10,9 +10,11 @@ from .c11 import _parents, catching_handler
 from sa.canon import canon_list, canon_list_text, fold_consts
 from sa.decide import Walker, completions, values_at, completed_on_all_paths
 
-TECHNIQUE = ("effect confinement (which attributes of the transaction the unsign path may write), provenance "
-             "expansion of the rebuilt script and of the value relayed to the device, dominance of every device "
-             "call by the completed decoding, handler shape for the -102 mapping")
+TECHNIQUE = ('effect confinement (which attributes of the transaction the unsign path may write, only locally '
+             'created lists mutated), canonical list forms for the rebuilt inputs and the blanked script, decision '
+             'table of get_unsigned_tx, path-sensitive value of what is relayed to the device and path-sensitive '
+             'must-precede of every device call by the completed decoding, decision walk of the decoding handler '
+             'for the -102 mapping')
 EXPLANATION = (
     "Static analysis of /repo's current source (nothing executed). Decides only the frame around the "
     "transformation: the unsign path writes nothing but tx.vin and, on a copy obtained with "
